@@ -602,6 +602,17 @@ func TestVerif_C04(t *testing.T) {
 				if chainKey != "" && r.chance(70) {
 					m.tos = append(m.tos, chainKey)
 				}
+				if (ci+len(msgs))%6 == 1 {
+					// a quoted local part with an at-sign in it (chosen without drawing): the domain is what
+					// follows the last at-sign, as sender and as recipient
+					q := "\"odd@" + vLocs[(ci+len(msgs))%len(vLocs)] + "\"@" + []string{"example.org", "corp.example", "sub.example.org"}[(ci/6)%3]
+					if len(msgs)%2 == 0 {
+						m.tos = append(m.tos, q)
+					} else {
+						m.from = q
+					}
+					stats["quoted-at-sign"]++
+				}
 				v := vMsg{from: vRespell(r, m.from)}
 				for _, to := range m.tos {
 					v.tos = append(v.tos, vRespell(r, to))
